@@ -52,6 +52,8 @@ def decode(v):
     k = v[0]
     if k in ("int", "float", "str", "bool"):
         return {"int": int, "float": float, "str": str, "bool": bool}[k](v[1])
+    if k == "bytes":
+        return v[1].encode("latin-1")
     if k == "list":
         return list(v[1])
     if k == "tuple":
@@ -60,11 +62,17 @@ def decode(v):
         return dict(v[1])
     if k == "obj":
         return Opaque()
+    if k == "none":
+        return None
     raise ValueError(v)
 
 
 def transportable(v) -> bool:
-    return v[0] in ("int", "float", "str", "bool")
+    return v[0] in ("int", "float", "str", "bool", "bytes", "none")
+
+
+def is_none(v) -> bool:
+    return v[0] == "none"
 
 
 def _lit(v):
@@ -206,6 +214,10 @@ class ClientProgram:
     def usable(self, k) -> bool:
         "A site is only invoked while every name it captures is bound (see DESIGN C04)."
         return all(self.bound[n] for n in self.sites[k]["free"])
+
+    def none_bound(self, k):
+        "Captured names of site k currently bound to None."
+        return [n for n in self.sites[k]["free"] if is_none(self.value[n])]
 
     def blocked_by(self, k):
         "Captured names of site k whose current value is not transportable."
